@@ -345,7 +345,7 @@ pub fn run(tier: Tier, _budget: f64, out: &mut Outcome) -> Result<(), MachineryE
             out.known_hits.push(format!("KNOWN-FINDING: property=C14 {}", k.what));
             continue;
         }
-        let dir = std::path::Path::new(check::VERIF).join("replays").join("C14");
+        let dir = std::path::Path::new(&check::verif_root()).join("replays").join("C14");
         let _ = std::fs::create_dir_all(&dir);
         let path = dir.join(format!("{:016x}.json", crate::explore::hash_of(&(b.oracle, &b.a, &b.b))));
         let doc = json!({"property": "C14", "kind": "protocol", "a": b.a, "b": b.b, "a_shown": show(&b.a), "b_shown": show(&b.b),
